@@ -403,8 +403,89 @@ def sort_recursion(rep, R, facts):
                 a0 = peel(n['args'][0]) if n.get('args') else {}
                 if not (a0.get('k') == 'path' and a0.get('path') in pn):
                     problems.append(f'line {n.get("l")}: the comparison function is not passed on to the recursion')
+        if d.endswith('_internal') and len(own) == 1 and own[0].get('args'):
+            _sort_adapter(rep, R, facts, d, b, own[0])
         rep.check(R, f'{d}|recursion', len(rec) == 1 and not problems, 'one self-recursive call, guarded by is_dotted()' + (', comparison passed on' if d.endswith('_internal') else ''),
                   f'`{d}`: ' + ('; '.join(problems) if problems else f'{len(rec)} recursive sort calls instead of 1'), facts.loc(b))
+
+
+def _sort_adapter(rep, R, facts, d, b, call):
+    """the closure handed to `items.sort_by` stands between the storage's (key, item) pairs and the caller's comparison: evaluated on two symbolic
+    entries of every kind (a value, a table, the placeholder), it must hand the caller's comparison the first entry's key and value first and the
+    second entry's second, and what it answers without asking must be antisymmetric"""
+    from .core import walk, peel
+    from .den import RecInterp, Evaluator, Unanalysable, EvalPanic
+    arg = peel(call['args'][0])
+    if arg.get('k') == 'path' and arg.get('res') == 'Local':
+        origins = local_origins(b['body'])
+        arg = peel(origins.get(arg['path']) or {})
+    if arg.get('k') != 'closure':
+        pn = [p.get('name') for p in b.get('params', []) if p.get('k') == 'p_bind'][1:]
+        a0 = peel(call['args'][0])
+        direct = a0.get('k') == 'path' and a0.get('path') in pn
+        rep.check(R, f'{d}|adapter', direct, 'the caller\'s comparison is handed to sort_by as it is', f'`{d}`: what is handed to sort_by is neither the caller\'s comparison nor a closure around it', facts.loc(b))
+        return
+    cmp_names = [p.get('name') for p in b.get('params', []) if p.get('k') == 'p_bind'][1:]
+    I = 'toml_edit::item::Item::'
+    kinds = {'value': lambda t: ('ctor', I + 'Value', (('sym', 'v' + t),)), 'table': lambda t: ('ctor', I + 'Table', (('sym', 'v' + t),)), 'none': lambda t: ('ctor', I + 'None')}
+
+    def mentions(v, s):
+        if v == ('sym', s):
+            return True
+        return isinstance(v, (tuple, list)) and any(mentions(x, s) for x in v)
+    bad = []
+    answers = {}
+    n_cmp = 0
+    try:
+        for ka, fa in kinds.items():
+            for kb, fb in kinds.items():
+                it = RecInterp(Evaluator(facts), set())
+                env = {n: ('recfn', 'compare') for n in cmp_names}
+                clo = it.val(arg, env)
+                try:
+                    r = it.apply(clo, [('sym', 'k1'), fa('1'), ('sym', 'k2'), fb('2')])
+                except EvalPanic as ex:
+                    bad.append(f'panics for a {ka} and a {kb} entry ({ex})')
+                    continue
+                tr = [t for t in it.trace if t[0] == 'compare']
+                if tr:
+                    n_cmp += 1
+                    got = [tr[0][1]] + list(tr[0][2])
+                    # (the placeholder carries nothing to tell its two occurrences apart: only the other side is judged)
+                    ok = len(tr) == 1 and len(got) == 4 and got[0] == ('sym', 'k1') and got[2] == ('sym', 'k2') and (ka == 'none' or mentions(got[1], 'v1')) and not mentions(got[1], 'v2') \
+                        and (kb == 'none' or mentions(got[3], 'v2')) and not mentions(got[3], 'v1')
+                    if not ok:
+                        bad.append(f'for a {ka} and a {kb} entry the caller\'s comparison receives ({", ".join(_show_sym(x) for x in got)}) instead of (key1, value1, key2, value2)')
+                    answers[(ka, kb)] = 'asks'
+                else:
+                    answers[(ka, kb)] = r[1].rsplit('::', 1)[-1] if isinstance(r, tuple) and r and r[0] == 'ctor' else repr(r)
+    except Unanalysable as ex:
+        rep.incomplete(R, f'{d}|adapter', f'cannot evaluate the comparison adapter of `{d}`: {ex}', facts.loc(b))
+        return
+    flip = {'Less': 'Greater', 'Greater': 'Less', 'Equal': 'Equal', 'asks': 'asks'}
+    for (ka, kb), r in answers.items():
+        if (kb, ka) in answers and flip.get(r) != answers[(kb, ka)]:
+            bad.append(f'a {ka} entry against a {kb} entry is {r}, but a {kb} entry against a {ka} entry is {answers[(kb, ka)]}')
+    if not n_cmp:
+        bad.append('the caller\'s comparison is never asked')
+    rep.check(R, f'{d}|adapter', not bad, f'{n_cmp} of {len(answers)} entry-kind pairs ask the caller\'s comparison with (key1, value1, key2, value2); the rest is antisymmetric',
+              f'`{d}`: the comparison adapter ' + '; '.join(bad[:2]) + ': the entries come out in another order than the same sort of a plain list', facts.loc(b))
+
+
+def _show_sym(v):
+    if isinstance(v, tuple) and len(v) == 2 and v[0] == 'sym':
+        return {'k1': 'key1', 'k2': 'key2', 'v1': 'value1', 'v2': 'value2'}.get(v[1], v[1])
+    if isinstance(v, tuple):
+        for x in v:
+            r = _show_sym(x) if isinstance(x, (tuple, list)) else None
+            if r and r != '?':
+                return r
+    if isinstance(v, list):
+        for x in v:
+            r = _show_sym(x)
+            if r != '?':
+                return r
+    return '?'
 
 
 def pattern_bindings(pat, expr, out):
